@@ -3414,6 +3414,22 @@ func (m *AddDeviate) IsMaxElementsSet() bool {
 	return m.maxElementsPtr != nil
 }
 
+func (m *AddDeviate) Unbounded() bool {
+	if m.unboundedPtr != nil {
+		return *m.unboundedPtr
+	}
+	return m.maxElementsPtr == nil
+}
+
+func (m *AddDeviate) setUnbounded(b bool) {
+	m.unboundedPtr = &b
+}
+
+func (m *AddDeviate) IsUnboundedSet() bool {
+	return m.unboundedPtr != nil
+}
+
+
 // Unique is list of fields (or compound fields) that must be unque in the
 // list of items. If there is a key listed, that is implicitly unique and would
 // not be listed here.
@@ -3541,6 +3557,22 @@ func (m *ReplaceDeviate) setMaxElements(i int) {
 func (m *ReplaceDeviate) IsMaxElementsSet() bool {
 	return m.maxElementsPtr != nil
 }
+
+func (m *ReplaceDeviate) Unbounded() bool {
+	if m.unboundedPtr != nil {
+		return *m.unboundedPtr
+	}
+	return m.maxElementsPtr == nil
+}
+
+func (m *ReplaceDeviate) setUnbounded(b bool) {
+	m.unboundedPtr = &b
+}
+
+func (m *ReplaceDeviate) IsUnboundedSet() bool {
+	return m.unboundedPtr != nil
+}
+
 
 func (m *ReplaceDeviate) Type() *Type {
 	return m.dtype
